@@ -183,7 +183,7 @@ class History(object):
                 self.h["impls"][j - 1]["k"] == "viaimpl" and self.h["impls"][j - 1]["j"] in e["seeded"]
                 for j in e["seeded"]):
             # as after hydrating a serialized archive.  (Not when a seeded implementation depends directly on
-            # another seeded one: dr.run's pruning for this context then raises KeyError, dr.py:1124-1128 -
+            # another seeded one: that is the pruning of dr.run for this context, defect D17 -
             # an engine matter outside C05, reported in notes/C05.md.)
             broker[SerializedArchiveContext] = SerializedArchiveContext()
         for j in e["seeded"]:
